@@ -42,9 +42,12 @@ def rand_times(rng, n):
         if rng.random() < 0.2 and len(out) < n:
             out.append((a, b))      # identical timespan again (a run of concurrent captions)
         elif rng.random() < 0.1 and len(out) < n and isinstance(a, int) and b - a > 2000:
-            out.append((a + (b - a) // 2 // 1000 * 1000, b + 1000000))      # a cue that starts before the previous one has ended
+            if b + 1000000 + 1 < H24:      # (instants of 24 h and more are outside the formatter's domain)
+                out.append((a + (b - a) // 2 // 1000 * 1000, b + 1000000))      # a cue that starts before the previous one has ended
         elif rng.random() < 0.1 and len(out) < n and isinstance(a, int):
-            out.append((a, b + rng.choice([1000, 500000, 2500000])))         # same start, later end: two cues, not one run
+            later = b + rng.choice([1000, 500000, 2500000])
+            if later + 1 < H24:
+                out.append((a, later))         # same start, later end: two cues, not one run
             if rng.random() < 0.5 and len(out) < n:
                 out.append((a, b))      # the first timespan again, after a different one: not consecutive, so not the same run
         r = rng.random()
